@@ -2,6 +2,7 @@ package main
 
 import (
 	"fmt"
+	"go/types"
 	"sort"
 
 	"golang.org/x/tools/go/ssa"
@@ -27,13 +28,14 @@ type State struct {
 	heap    map[string]Term // overlay over epoch
 	epoch   *Epoch
 	nextRef Term
+	hv      Term // heap version: a fresh token after every heap write (for `reads heap` spec functions)
 	defers  []*ssa.Defer
 	iters   map[ssa.Value]Term // visited sets of map iterators
 	frozen  bool
 }
 
 func (st *State) Clone() *State {
-	n := &State{R: st.R, epoch: st.epoch, nextRef: st.nextRef}
+	n := &State{R: st.R, epoch: st.epoch, nextRef: st.nextRef, hv: st.hv}
 	n.cells = make(map[*ssa.Alloc]Term, len(st.cells))
 	for k, v := range st.cells {
 		n.cells[k] = v
@@ -119,12 +121,21 @@ func (fx *FnExec) SetHeap(st *State, key string, v Term) {
 		panic("unregistered heap key " + key)
 	}
 	st.heap[key] = fx.sc.Define(key, v)
+	fx.bumpHV(st)
+}
+
+func (fx *FnExec) bumpHV(st *State) {
+	if fx.freezeHV {
+		return
+	}
+	st.hv = fx.sc.Fresh("hv", SInt)
 }
 
 // HavocAll forgets the whole heap (not the local cells).
 func (fx *FnExec) HavocAll(st *State) {
 	st.heap = map[string]Term{}
 	st.epoch = fx.newEpoch()
+	fx.bumpHV(st)
 	old := st.nextRef
 	st.nextRef = fx.sc.Fresh("nextRef", SInt)
 	fx.sc.Assume(App(">=", SBool, st.nextRef, old))
@@ -133,6 +144,9 @@ func (fx *FnExec) HavocAll(st *State) {
 func (fx *FnExec) HavocKeys(st *State, keys []string) {
 	for _, k := range keys {
 		st.heap[k] = fx.sc.Fresh(k+"@h", heapSorts[k])
+	}
+	if len(keys) > 0 {
+		fx.bumpHV(st)
 	}
 	old := st.nextRef
 	st.nextRef = fx.sc.Fresh("nextRef", SInt)
@@ -149,9 +163,17 @@ func (fx *FnExec) Havoc(st *State, ms *ModSet) {
 		old := st.nextRef
 		st.nextRef = fx.sc.Fresh("nextRef", SInt)
 		fx.sc.Assume(App(">=", SBool, st.nextRef, old))
-		return
+	} else {
+		fx.HavocKeys(st, ms.Sorted())
 	}
-	fx.HavocKeys(st, ms.Sorted())
+	for _, am := range ms.At {
+		if ms.Keys[am.Key] {
+			continue
+		}
+		h := fx.Heap(st, am.Key)
+		v := fx.sc.Fresh(am.Key+"@at", arrayElemSort(heapSorts[am.Key]))
+		fx.SetHeap(st, am.Key, Store(h, am.Idx, v))
+	}
 }
 
 type edgeIn struct {
@@ -192,23 +214,27 @@ func (fx *FnExec) Merge(hint string, ins []edgeIn) *State {
 		return fx.sc.Define(h, acc)
 	}
 	// cells: only those defined in every predecessor survive
+	// a variable that is out of scope on some incoming path keeps its zero value there (its
+	// content is dead in the program; contracts may still name it under a guard)
 	var allocs []*ssa.Alloc
-	for a := range ins[0].st.cells {
-		ok := true
-		for _, in := range ins[1:] {
-			if _, has := in.st.cells[a]; !has {
-				ok = false
+	seenAlloc := map[*ssa.Alloc]bool{}
+	for _, in := range ins {
+		for a := range in.st.cells {
+			if !seenAlloc[a] {
+				seenAlloc[a] = true
+				allocs = append(allocs, a)
 			}
-		}
-		if ok {
-			allocs = append(allocs, a)
 		}
 	}
 	sort.Slice(allocs, func(i, j int) bool { return allocs[i].Name() < allocs[j].Name() })
 	for _, a := range allocs {
 		vals := make([]Term, len(ins))
 		for i, in := range ins {
-			vals[i] = in.st.cells[a]
+			v, has := in.st.cells[a]
+			if !has {
+				v = fx.tc.Zero(a.Type().(*types.Pointer).Elem())
+			}
+			vals[i] = v
 		}
 		n.cells[a] = mergeVals("c$"+a.Comment+"$"+a.Name(), vals)
 	}
@@ -266,6 +292,11 @@ func (fx *FnExec) Merge(hint string, ins []edgeIn) *State {
 		refs[i] = in.st.nextRef
 	}
 	n.nextRef = mergeVals("nextRef", refs)
+	hvs := make([]Term, len(ins))
+	for i, in := range ins {
+		hvs[i] = in.st.hv
+	}
+	n.hv = mergeVals("hv", hvs)
 	// defers: must agree
 	n.defers = append([]*ssa.Defer(nil), ins[0].st.defers...)
 	for _, in := range ins[1:] {
@@ -285,6 +316,13 @@ func (fx *FnExec) Merge(hint string, ins []edgeIn) *State {
 type ModSet struct {
 	All  bool
 	Keys map[string]bool
+	At   []AtMod // writes confined to one index of an array (fields of one object), call-site specific
+}
+
+// AtMod says: array Key may change at index Idx only.
+type AtMod struct {
+	Key string
+	Idx Term
 }
 
 func NewModSet() *ModSet { return &ModSet{Keys: map[string]bool{}} }
